@@ -39,12 +39,13 @@ type Recv struct {
 }
 
 type Case struct {
-	M    Msg  `json:"m"`
-	Recv Recv `json:"recv"`
+	Fl   string `json:"fl"` // "core" | "gnosis" | "service": the node assembly the case is delivered to
+	M    Msg    `json:"m"`
+	Recv Recv   `json:"recv"`
 }
 
 func (c Case) Key() string {
-	return fmt.Sprintf("%s|%v%v%v%v|%s|%d|%v|%s|%s|%s|%s", c.M.Mt, c.M.TopicOk, c.M.TypeOk, c.M.VersionOk, c.M.InstOk, c.M.Set, c.M.Snd,
+	return fmt.Sprintf("%s|%s|%v%v%v%v|%s|%d|%v|%s|%s|%s|%s", c.Fl, c.M.Mt, c.M.TopicOk, c.M.TypeOk, c.M.VersionOk, c.M.InstOk, c.M.Set, c.M.Snd,
 		c.M.Entries, c.M.Extra, c.Recv.Layout, c.Recv.Stored, c.Recv.Shares)
 }
 
@@ -73,12 +74,22 @@ func sibling(mt string) string {
 	return "shares"
 }
 
+// C04Ident is the identity of world rank r on a node of flavour fl: the shared world's identity
+// on the core keyper, an identity of the flavour's SSZ size on gnosis / service keypers (their
+// signature data cannot be built over other sizes).
+func (w *World) C04Ident(fl string, r int) []byte {
+	if fl == "" || fl == "core" {
+		return w.RankIdentity(r)
+	}
+	return w.Ident(r, IdentLen(fl))
+}
+
 func (w *World) identOf(cc *Concrete, r int) []byte {
 	if id, ok := cc.Idents[r]; ok {
 		return id
 	}
 	if r >= 1 && r <= len(w.Idents) {
-		return w.RankIdentity(r)
+		return w.C04Ident(cc.Case.Fl, r)
 	}
 	panic(fmt.Sprintf("no identity for rank %d", r))
 }
@@ -118,6 +129,9 @@ func swapPartner(es []Entry, i int) int {
 // worldNames returns the abstract identity names of the entries in message order if every
 // entry carries an identity of the shared world (and the case does not override it).
 func (w *World) worldNames(cc *Concrete) ([]string, bool) {
+	if cc.Case.Fl != "" && cc.Case.Fl != "core" {
+		return nil, false // flavour-sized identities are not the shared world's
+	}
 	var names []string
 	for _, e := range cc.Case.M.Entries {
 		if _, over := cc.Idents[e.R]; over || e.R < 1 || e.R > len(w.Idents) {
@@ -182,11 +196,18 @@ func (w *World) BuildProto(cc *Concrete) p2pmsg.Message {
 			}
 			out.Shares = append(out.Shares, &p2pmsg.KeyShare{IdentityPreimage: id, Share: w.ShareBytes(snd, tokenID, k)})
 		}
+		// the extra is genuine: the real signature of keyper snd over the message's own fields (when
+		// the identities do not have the flavour's SSZ size a well-formed signature over a substitute)
+		var ids [][]byte
+		for _, sh := range out.Shares {
+			ids = append(ids, sh.IdentityPreimage)
+		}
+		sig := flavourSignature(m.Extra, inst, eon, c05Slot, c05TxPointer, ids, w.KeyperKeys[snd%NKeypers])
 		switch m.Extra {
 		case "gnosis":
-			out.Extra = &p2pmsg.DecryptionKeyShares_Gnosis{Gnosis: &p2pmsg.GnosisDecryptionKeySharesExtra{Slot: 5, TxPointer: 3, Signature: w.fakeSig(cc.Salt, 0)}}
+			out.Extra = &p2pmsg.DecryptionKeyShares_Gnosis{Gnosis: &p2pmsg.GnosisDecryptionKeySharesExtra{Slot: c05Slot, TxPointer: c05TxPointer, Signature: sig}}
 		case "service":
-			out.Extra = &p2pmsg.DecryptionKeyShares_Service{Service: &p2pmsg.ShutterServiceDecryptionKeySharesExtra{Signature: w.fakeSig(cc.Salt, 0)}}
+			out.Extra = &p2pmsg.DecryptionKeyShares_Service{Service: &p2pmsg.ShutterServiceDecryptionKeySharesExtra{Signature: sig}}
 		case "optimism":
 			out.Extra = &p2pmsg.DecryptionKeyShares_Optimism{Optimism: &p2pmsg.OptimismDecryptionKeySharesExtra{}}
 		}
@@ -209,13 +230,22 @@ func (w *World) BuildProto(cc *Concrete) p2pmsg.Message {
 		}
 		out.Keys = append(out.Keys, &p2pmsg.Key{IdentityPreimage: id, Key: w.KeyBytes(tokenID, k)})
 	}
+	// genuine extra: threshold many real signatures (keypers 0 and 1) over the message's own fields
+	var ids [][]byte
+	for _, k := range out.Keys {
+		ids = append(ids, k.IdentityPreimage)
+	}
+	sigs := [][]byte{
+		flavourSignature(m.Extra, inst, eon, c05Slot, c05TxPointer, ids, w.KeyperKeys[0]),
+		flavourSignature(m.Extra, inst, eon, c05Slot, c05TxPointer, ids, w.KeyperKeys[1]),
+	}
 	switch m.Extra {
 	case "gnosis":
-		out.Extra = &p2pmsg.DecryptionKeys_Gnosis{Gnosis: &p2pmsg.GnosisDecryptionKeysExtra{Slot: 5, TxPointer: 3, SignerIndices: []uint64{0, 1},
-			Signatures: [][]byte{w.fakeSig(cc.Salt, 0), w.fakeSig(cc.Salt, 1)}}}
+		out.Extra = &p2pmsg.DecryptionKeys_Gnosis{Gnosis: &p2pmsg.GnosisDecryptionKeysExtra{Slot: c05Slot, TxPointer: c05TxPointer, SignerIndices: []uint64{0, 1},
+			Signatures: sigs}}
 	case "service":
 		out.Extra = &p2pmsg.DecryptionKeys_Service{Service: &p2pmsg.ShutterServiceDecryptionKeysExtra{SignerIndices: []uint64{0, 1},
-			Signature: [][]byte{w.fakeSig(cc.Salt, 0), w.fakeSig(cc.Salt, 1)}}}
+			Signature: sigs}}
 	case "optimism":
 		out.Extra = &p2pmsg.DecryptionKeys_Optimism{Optimism: &p2pmsg.OptimismDecryptionKeysExtra{}}
 	}
